@@ -22,7 +22,7 @@ type childOutcome struct {
 }
 
 // runChildren executes the scenarios in child processes of binary `bin`, restarting after a crash / hang.
-func runChildren(bin string, dir string, tag string, scs []Scenario, watchdogSec int, extraEnv []string) (childOutcome, error) {
+func runChildren(bin string, dir string, tag string, scs []Scenario, watchdogSec int, extraEnv []string, args ...string) (childOutcome, error) {
 	oc := childOutcome{results: map[int]Result{}, crashes: map[int]string{}}
 	scFile := filepath.Join(dir, "scenarios_"+tag+".json")
 	resFile := filepath.Join(dir, "results_"+tag+".txt")
@@ -34,7 +34,7 @@ func runChildren(bin string, dir string, tag string, scs []Scenario, watchdogSec
 	start, bad := 0, 0 // bad: a crash costs 1, a hang (one full watchdog period) costs 2; budget 4
 	var allErr bytes.Buffer
 	for start < len(scs) && bad < 4 {
-		cmd := exec.Command(bin)
+		cmd := exec.Command(bin, args...)
 		cmd.Env = append(os.Environ(), "VERIF_PIPE_CHILD="+scFile, "VERIF_PIPE_RESULT="+resFile,
 			"VERIF_PIPE_START="+strconv.Itoa(start), "VERIF_PIPE_WATCHDOG="+strconv.Itoa(watchdogSec))
 		cmd.Env = append(cmd.Env, extraEnv...)
@@ -139,7 +139,67 @@ func runPipe(c *hc.Ctx, m mode, quickN, thoroughN int) ([]Scenario, error) {
 	}
 	c.Count(fmt.Sprintf("wall ms of the implementation runs: %d", time.Since(t0).Milliseconds()/100*100))
 	evaluate(c, m, scs, oc, true)
+	if c.Replay == "" {
+		virtualTime(c, m)
+	}
 	return scs, nil
+}
+
+// virtualTime: scenarios with pauses of seconds to hours, run inside testing/synctest bubbles by a test binary of this
+// module built with go1.26.8 (vt_test.go).  Oracle only (the model has no clock: a pause is just a schedule).
+func virtualTime(c *hc.Ctx, m mode) {
+	gobin, err := exec.LookPath("go1.26.8")
+	if err != nil {
+		gobin = "/opt/veriftools/go1.26.8/bin/go"
+	}
+	src := filepath.Join(c.Verif, "harness_pipe")
+	bin := filepath.Join(c.Verif, "bin", ".harness_pipe_vt")
+	t0 := time.Now()
+	cmd := exec.Command(gobin, "test", "-c", "-tags", "verif", "-o", bin, ".")
+	cmd.Dir = src
+	cmd.Env = append(os.Environ(), "GOTOOLCHAIN=local")
+	out, err := cmd.CombinedOutput()
+	if err != nil {
+		c.Count("virtual-time stream: test binary does not build (stream skipped)")
+		c.Count("virtual-time stream skipped: " + gobin + " test -c failed: " + tail(string(out), 300))
+		return
+	}
+	n := c.N(200, 5000)
+	if c.Search {
+		n *= 4
+	}
+	scs := make([]Scenario, 0, n)
+	for i := 0; i < n; i++ {
+		scs = append(scs, genVTScenario(c.Rng, i))
+	}
+	t1 := time.Now()
+	oc, err := runChildren(bin, c.Out, "vt", scs, 20, nil, "-test.run", "^TestVTChild$", "-test.timeout", "30m")
+	if err != nil {
+		c.Count("virtual-time stream: run failed")
+		c.Count("virtual-time stream failed: " + tail(err.Error(), 300))
+		return
+	}
+	c.Count(fmt.Sprintf("virtual-time stream: %d scenarios with pauses of 2 s to 25 h in a synctest bubble (build %d ms, run %d ms)",
+		len(oc.results), t1.Sub(t0).Milliseconds()/100*100, time.Since(t1).Milliseconds()/100*100))
+	for i, sc := range scs {
+		if msg, crashed := oc.crashes[i]; crashed {
+			c.Sum.Evaluations++
+			c.Violate(hc.Violation{What: "under virtual time the process running ProcessFeatures crashed (panic in a pipeline goroutine, or a deadlock / a goroutine that never ends, which the synctest bubble reports)",
+				Input: sc, Observed: msg, Expected: "ProcessFeatures returns and every goroutine it started ends"})
+			continue
+		}
+		res, ok := oc.results[i]
+		if !ok {
+			continue
+		}
+		c.Sum.Evaluations++
+		c.Count("virtual-time " + fmt.Sprintf("targets=%d", len(sc.Targets)))
+		for _, f := range oracle(sc, res) {
+			if m.clauses[f.Clause] {
+				c.Violate(hc.Violation{What: f.What + " (virtual time: a pause of seconds to hours at the source, in the snapping function or at a target)", Input: sc, Observed: f.Obs, Expected: f.Exp})
+			}
+		}
+	}
 }
 
 func evaluate(c *hc.Ctx, m mode, scs []Scenario, oc childOutcome, emitCases bool) {
